@@ -53,9 +53,11 @@ ASSUMPTIONS = [
     "'never lost' is read operationally: after the sequence a drain phase (one willing auto-acknowledging consumer, "
     "time-outs for in-flight messages, n+1 polls, up to three rounds) must leave every published message "
     "acknowledged or dead-lettered",
-    "'redelivery limit': a failure after fewer than max_redeliveries deliveries must not dead-letter, a failure "
-    "after more than max_redeliveries deliveries must; exactly max_redeliveries is accepted either way (the "
-    "docstring and the code disagree on that off-by-one and the statement does not settle it)",
+    "'redelivery limit' is taken exactly as HEAD documents and implements it, identically for the reject path and "
+    "the time-out path (DeadLetterQueue docstring: 'max_redeliveries=3 ... messages that fail 3 times go to DLQ'): a "
+    "failure (reject with requeue, or redelivery time-out) of a message that has been delivered fewer than "
+    "max_redeliveries times must not dead-letter it, a failure after max_redeliveries or more deliveries must "
+    "dead-letter it (deliveries = what the consumers received; checked at quiescent tick boundaries)",
     "uuid.uuid4 is pinned to a counter; no component under test reads the wall clock or the random module",
     "committed offsets are observed per (member, partition) through consumer_lag() = high watermark - committed, "
     "over the whole sequence incl. after a partition returned to a former owner; besides never decreasing between "
